@@ -62,7 +62,9 @@ CLAIMED = {
             "implementation's max_dist/use_pruning results (py/C distance, warping_paths, distance matrices) are "
             "compared with the specification and, for the single-pair routines of both engines, with the "
             "as-written model",
-            "bookkeeping of the C warping-paths kernels: abstract theorem + correspondence",
+            "bookkeeping of the C warping-paths kernels under a bound: the eight regenerated row loops are proved to "
+            "be one row core (C03_c_wps_rows_share_one_pruning_core), exact without a bound (C04); with a bound "
+            "abstract theorem + correspondence",
             "Coq proof (PrunedDTW: abstract soundness + refinement of the as-written Python routine and of the "
             "regenerated C kernel and of the regenerated dtw.distance, C03_py_distance_as_written_bounded) + correspondence"),
     "C09": ("Coq theorems C09_lb_keogh_le_dtw and C09_dtw_le_euclidean for all series/windows/penalties; "
